@@ -39,6 +39,14 @@ func (l *c15leaf) MarshalBinary() ([]byte, error) {
 	return l.b, nil // the internal slice on purpose: a hasher that scribbles on it is caught
 }
 
+// c15nested: a leaf that is itself a Merkle tree, hashed with a Hasher of the caller's choice when it is marshaled.
+type c15nested struct {
+	hs  *merkle.Hasher
+	sub []encoding.BinaryMarshaler
+}
+
+func (n c15nested) MarshalBinary() ([]byte, error) { return n.hs.Hash(n.sub) }
+
 // a second type with the same marshaled form ("depends only on the marshaled leaves")
 type c15leafB string
 
@@ -136,6 +144,19 @@ func c15Leaves(n int, kind int) [][]byte {
 			out[i] = []byte{0x42}
 		case 2: // empty
 			out[i] = []byte{}
+		case 5: // header + payload: 100 bytes, the first 96 equal in all leaves, a 4-byte index behind
+			b := bytes.Repeat([]byte{0xA7}, 100)
+			binary.BigEndian.PutUint32(b[96:], uint32(i)*2654435761+1)
+			out[i] = b
+		case 6: // 65 bytes, the first 64 equal, one distinguishing byte (repeats after 256 leaves)
+			b := bytes.Repeat([]byte{0x11}, 65)
+			b[64] = byte(i)
+			out[i] = b
+		case 7: // 300 bytes differing in one byte far behind the first hash block
+			b := bytes.Repeat([]byte{0x5C}, 300)
+			b[200] = byte(i * 7)
+			b[299] = byte(i >> 5)
+			out[i] = b
 		case 4: // 32-byte identifiers (as large as a digest)
 			b := make([]byte, 32)
 			for k := range b {
@@ -180,8 +201,11 @@ func runC15(c *core.Ctx) {
 	}
 	for _, h := range hashes {
 		for n := 0; n <= maxN/4; n++ {
-			for kind := 0; kind < 4; kind++ {
+			for _, kind := range []int{0, 1, 2, 3, 4, 5, 6, 7} {
 				if kind != 0 && n > 200 {
+					continue
+				}
+				if kind >= 4 && (n > 70 || h == crypto.SHA1) {
 					continue
 				}
 				add(job{h, n, kind})
@@ -276,6 +300,43 @@ func runC15(c *core.Ctx) {
 	})
 	for _, x := range counts {
 		nontriv += x
+	}
+	// one Hasher used for trees of trees (a leaf whose MarshalBinary hashes a sub-list with the SAME Hasher: a second Hash
+	// call becomes active while the first one is in progress, on one goroutine) and struct copies of a used Hasher working
+	// alternately; the reference hashes bottom-up with the sub-roots as leaf contents
+	for _, hh := range []crypto.Hash{crypto.SHA256, crypto.BLAKE2b_256, crypto.SHA512} {
+		hs := merkle.NewHasher(hh)
+		hs.Hash([]encoding.BinaryMarshaler{&c15leaf{b: []byte{1}}, &c15leaf{b: []byte{2}}, &c15leaf{b: []byte{3}}}) // warm up
+		cp := *hs
+		for outer := 1; outer <= 9; outer++ {
+			for pos := 0; pos < outer; pos++ {
+				for sub := 0; sub <= 5; sub++ {
+					subLeaves := c15Leaves(sub, 0)
+					subData := make([]encoding.BinaryMarshaler, sub)
+					for i := range subLeaves {
+						subData[i] = &c15leaf{b: subLeaves[i]}
+					}
+					raw := c15Leaves(outer, 4)
+					raw[pos] = refMerkleRoot(hh, subLeaves)
+					for vi, use := range []*merkle.Hasher{hs, &cp} {
+						inner := hs // the nested call always goes through the original object
+						data := make([]encoding.BinaryMarshaler, outer)
+						for i := range raw {
+							data[i] = &c15leaf{b: raw[i]}
+						}
+						data[pos] = c15nested{inner, subData}
+						var got []byte
+						var err error
+						p := core.Catch(func() { got, err = use.Hash(data) })
+						c.Eval(1)
+						nontriv++
+						if p != nil || err != nil || !bytes.Equal(got, refMerkleRoot(hh, raw)) {
+							c.Violate("C15/nested-use", fmt.Sprintf("%v: %d leaves, leaf %d is the root of a %d-leaf list hashed with the same Hasher inside MarshalBinary (outer call on %s): root %x (%v %v), reference %x", hh, outer, pos, sub, []string{"the Hasher itself", "a struct copy of the used Hasher"}[vi], got, p, err, refMerkleRoot(hh, raw)), map[string]int{"outer": outer, "pos": pos, "sub": sub}, "", nil)
+						}
+					}
+				}
+			}
+		}
 	}
 	c.Sample(map[string]interface{}{"hash": "SHA-256", "n": 5, "leaves": "8-byte index-coded", "root": fmt.Sprintf("%x", refMerkleRoot(crypto.SHA256, c15Leaves(5, 0)))})
 
